@@ -683,6 +683,19 @@ fn mutants(text: &str, kind: &str, nmut: usize, rng: &mut Rng, tags: &mut Tags, 
             }
         }
     }
+    // a well-formed payload under any version other than the current one must be refused
+    {
+        let inner0 = inner0.to_string();
+        for v in [0u64, ver0.wrapping_sub(1), ver0 + 1, ver0 + 2, 42, u64::MAX] {
+            if v == ver0 { continue; }
+            let mtext = json!({"version": v, "data": inner0}).to_string();
+            match deserialize(&mtext) {
+                De::Panic => out.violation("deserialize-panics", json!({"base": kind, "version": v}), "from_str panics on a wrong version".into()),
+                De::Ok(_) => out.violation("deserialize-accepts-wrong-version", json!({"base": kind, "version": v.to_string(), "current": ver0}), "a context serialized under another format version is accepted".into()),
+                De::Err => out.oracle_ok(),
+            }
+        }
+    }
     // garbage payloads in a well-formed envelope
     for g in ["{not json", "", "null", "[]", "{}", "{\"finalized\":true}", "\u{0}\u{1}"] {
         let mtext = json!({"version": ver0, "data": g}).to_string();
